@@ -495,44 +495,7 @@ func runC05(c *eng.Ctx) {
 
 	// ---- R05.7 crash-safe ordering of destructive steps
 	c.Rule("R05.7", "K2")
-	if fn := c.Fn(cl + "(*segment).Delete"); fn != nil {
-		// recovery knows how to deal with an index that has no log (open() removes it); a log without its index is re-opened
-		// as a segment whose messages are not indexed. So the log goes first.
-		var rmLog, rmIdx []ssa.Instruction
-		for _, r := range eng.CallsIn(fn, "os.Remove") {
-			a := r.Common().Args[0]
-			switch {
-			case eng.Call(-1, cl+"index.Name")(a):
-				rmIdx = append(rmIdx, r.(ssa.Instruction))
-			case eng.Call(-1, "os.File.Name")(a):
-				rmLog = append(rmLog, r.(ssa.Instruction))
-			}
-		}
-		ok := len(rmLog) == 1 && len(rmIdx) == 1
-		if ok {
-			g, _ := eng.PrecededBy(fn, rmIdx[0], func(x ssa.Instruction) bool { return x == rmLog[0] })
-			// allowed alternative: the log did not exist (exists(log) false) — then nothing needs to precede
-			noLog := eng.BoolEdges(fn, eng.Call(-1, cl+"exists"), false)
-			if !g {
-				q := &eng.PathQuery{Fn: fn, FromEntry: true, Target: func(x ssa.Instruction) bool { return x == rmIdx[0] }, CutInstr: func(x ssa.Instruction) bool { return x == rmLog[0] }, CutEdges: noLog}
-				g = q.Find() == nil
-			}
-			ok = g
-		}
-		// Delete is retried by the next clean when an earlier attempt failed half way: removing a file that is already gone must
-		// not be an error
-		okRep := true
-		present := eng.BoolEdges(fn, eng.Call(-1, cl+"exists"), true)
-		for _, r := range append(append([]ssa.Instruction{}, rmLog...), rmIdx...) {
-			g, _ := eng.GuardedBy(fn, r, present)
-			tolerant := len(eng.CallsIn(fn, "os.IsNotExist")) > 0
-			if !(g && len(present) > 0) && !tolerant {
-				okRep = false
-			}
-		}
-		c.Check(okRep && len(rmLog)+len(rmIdx) >= 2, "deleting a segment twice is not an error", p.Pos(fn.Pos()), "each os.Remove is guarded by exists() (or tolerates IsNotExist)", "segment.Delete fails when one of its files is already gone: after a deletion that failed half way, every retry by the cleaner fails with ENOENT, retention for that log is stuck and the limits never hold again")
-		c.Check(ok, "a segment's log file is removed before its index", p.Pos(fn.Pos()), "os.Remove(log) precedes os.Remove(index)", "segment.Delete can remove the index while the log file still exists: a crash in between leaves a log without index, which recovery re-opens as a segment whose stored messages are unreachable (an orphan index, by contrast, is cleaned up by open())")
-	}
+	ruleSegmentDelete(c)
 	if fn := c.Fn(cl + "(*commitLog).Truncate"); fn != nil {
 		// the epoch cache is trimmed after the log: recovery trims epochs beyond the log end (ClearLatest in New), but has no
 		// way to restore epochs that were dropped while the messages they describe are still in the log
@@ -631,4 +594,47 @@ func ruleEpochTrimAtRecovery(c *eng.Ctx) {
 	}
 	c.Check(eng.Call(-1, cl+"segment.NextOffset")(clr[0].Common().Args[1]), "epoch cache trimmed at the recovered log end", c.Pos(clr[0].(ssa.Instruction)), "ClearLatest(activeSegment().NextOffset())", "ClearLatest at open is not given the next assignable offset: an epoch that a newly elected leader recorded before writing its first message (start = next offset) is dropped on every reopen, or entries beyond the log survive")
 	c.Check(eng.Call(-1, cl+"commitLog.OldestOffset")(cle[0].Common().Args[1]), "epoch cache trimmed at the recovered log start", c.Pos(cle[0].(ssa.Instruction)), "ClearEarliest(OldestOffset())", "ClearEarliest at open is not given the recovered oldest offset")
+}
+
+// ruleSegmentDelete (part of R05.7, shared with C09): segment.Delete removes the log before the index and can be repeated.
+func ruleSegmentDelete(c *eng.Ctx) {
+	p := c.P
+	if fn := c.Fn(cl + "(*segment).Delete"); fn != nil {
+		// recovery knows how to deal with an index that has no log (open() removes it); a log without its index is re-opened
+		// as a segment whose messages are not indexed. So the log goes first.
+		var rmLog, rmIdx []ssa.Instruction
+		for _, r := range eng.CallsIn(fn, "os.Remove") {
+			a := r.Common().Args[0]
+			switch {
+			case eng.Call(-1, cl+"index.Name")(a):
+				rmIdx = append(rmIdx, r.(ssa.Instruction))
+			case eng.Call(-1, "os.File.Name")(a):
+				rmLog = append(rmLog, r.(ssa.Instruction))
+			}
+		}
+		ok := len(rmLog) == 1 && len(rmIdx) == 1
+		if ok {
+			g, _ := eng.PrecededBy(fn, rmIdx[0], func(x ssa.Instruction) bool { return x == rmLog[0] })
+			// allowed alternative: the log did not exist (exists(log) false) — then nothing needs to precede
+			noLog := eng.BoolEdges(fn, eng.Call(-1, cl+"exists"), false)
+			if !g {
+				q := &eng.PathQuery{Fn: fn, FromEntry: true, Target: func(x ssa.Instruction) bool { return x == rmIdx[0] }, CutInstr: func(x ssa.Instruction) bool { return x == rmLog[0] }, CutEdges: noLog}
+				g = q.Find() == nil
+			}
+			ok = g
+		}
+		// Delete is retried by the next clean when an earlier attempt failed half way: removing a file that is already gone must
+		// not be an error
+		okRep := true
+		present := eng.BoolEdges(fn, eng.Call(-1, cl+"exists"), true)
+		for _, r := range append(append([]ssa.Instruction{}, rmLog...), rmIdx...) {
+			g, _ := eng.GuardedBy(fn, r, present)
+			tolerant := len(eng.CallsIn(fn, "os.IsNotExist")) > 0
+			if !(g && len(present) > 0) && !tolerant {
+				okRep = false
+			}
+		}
+		c.Check(okRep && len(rmLog)+len(rmIdx) >= 2, "deleting a segment twice is not an error", p.Pos(fn.Pos()), "each os.Remove is guarded by exists() (or tolerates IsNotExist)", "segment.Delete fails when one of its files is already gone: after a deletion that failed half way, every retry by the cleaner fails with ENOENT, retention for that log is stuck and the limits never hold again")
+		c.Check(ok, "a segment's log file is removed before its index", p.Pos(fn.Pos()), "os.Remove(log) precedes os.Remove(index)", "segment.Delete can remove the index while the log file still exists: a crash in between leaves a log without index, which recovery re-opens as a segment whose stored messages are unreachable (an orphan index, by contrast, is cleaned up by open())")
+	}
 }
